@@ -13,7 +13,9 @@ FACILITY = {"abbr": "abbreviations", "stream-enum": "abbreviations", "parse": "s
             "ctor-unit": DISPATCH, "value-unit": DISPATCH, "print-unit": DISPATCH, "ser-unit": DISPATCH,
             "stream-q": DISPATCH, "print-std": DISPATCH, "compare": DISPATCH,
             "convert": DISPATCH, "convert-inplace": DISPATCH, "static": "none", "plain": "none",
-            "system": "unit-system-tables", "model": "model-tables", "dims": "none"}
+            "system": "unit-system-tables", "model": "model-tables", "dims": "none",
+            "abbr-all": "abbreviations", "related-all": "related-unit-systems", "parse-all": "spellings",
+            "consistent-all": "consistent-units", "convert-all": DISPATCH, "quantity-all": DISPATCH}
 TABLE_KINDS = {k for k, v in FACILITY.items() if v != "none"}
 
 VALUES = ["1.0", "2.0", "-3.5", "0.125", "1234.5", "6.0e-5", "-98765.25", "0.75", "42.0", "1.0e7"]
@@ -238,6 +240,46 @@ class ProbeGen:
             body = ("const auto m = %s; return vrt::cs([&m](std::ostream& os) { os << static_cast<const PhQ::ConstitutiveModel&>(m); });" % solid)
         return self.mk("model", hdrs, body, "model")
 
+    # -- batch probes: one probe walks every enumerator / literal of a unit type (exhaustive, cheap to compile)
+    def abbr_all(self, U):
+        es = ", ".join(self.enum(U, e) for e in self.cat.units[U]["enumerators"])
+        body = ("std::string r; for (const auto e : {%s}) { r += vrt::c(PhQ::Abbreviation(e)); r += vrt::cs([e](std::ostream& os) { os << e; }); } return r;" % es)
+        return self.mk("abbr-all", [self.cat.units[U]["header"]], body, "%s all enumerators" % U)
+
+    def related_all(self, U):
+        es = ", ".join(self.enum(U, e) for e in self.cat.units[U]["enumerators"])
+        body = "std::string r; for (const auto e : {%s}) r += vrt::c(PhQ::RelatedUnitSystem(e)); return r;" % es
+        return self.mk("related-all", [self.cat.units[U]["header"]], body, "%s all enumerators" % U)
+
+    def parse_all(self, U):
+        lits = ", ".join("std::string_view(%s)" % cstr(l) for l in self.cat.units[U]["literals"])
+        body = "std::string r; for (const std::string_view s : {%s}) r += vrt::c(PhQ::ParseEnumeration<PhQ::Unit::%s>(s)); return r;" % (lits, U)
+        return self.mk("parse-all", [self.cat.units[U]["header"]], body, "%s all literals" % U)
+
+    def consistent_all(self, U):
+        ss = ", ".join("PhQ::UnitSystem::%s" % s for s in self.cat.unit_systems)
+        body = "std::string r; for (const auto s : {%s}) r += vrt::c(PhQ::ConsistentUnit<PhQ::Unit::%s>(s)); return r;" % (ss, U)
+        return self.mk("consistent-all", [self.cat.units[U]["header"]], body, "%s all unit systems" % U)
+
+    def convert_all(self, U, T):
+        es = self.cat.units[U]["enumerators"]
+        lst = ", ".join(self.enum(U, e) for e in es)
+        body = ("const PhQ::Unit::%s es[] = {%s}; const int n = %d; std::string r; %s x = %s; "
+                "for (int i = 0; i < n; ++i) { r += vrt::c(PhQ::Convert(x, es[i], es[(i + 1) %% n])); "
+                "std::vector<%s> v{x, x}; PhQ::ConvertInPlace(v, es[(i + 2) %% n], es[i]); r += vrt::c(v); } return r;" % (
+                    U, lst, len(es), T, self.val(T), T))
+        return self.mk("convert-all", [self.cat.units[U]["header"]], body, "Convert<%s,%s> all enumerators both directions" % (U, T))
+
+    def quantity_all(self, Q, T):
+        U = Q["unit"]
+        es = self.cat.units[U]["enumerators"]
+        lst = ", ".join(self.enum(U, e) for e in es)
+        body = ("const PhQ::Unit::%s es[] = {%s}; const int n = %d; std::string r; "
+                "for (int i = 0; i < n; ++i) { const PhQ::%s<%s> q{%s, es[i]}; r += vrt::c(q.Value(es[(i + 1) %% n])%s); "
+                "r += vrt::c(q.Print(es[(i + 3) %% n])); } return r;" % (
+                    U, lst, len(es), Q["name"], T, self.shape_value(Q["shape"], T), ACCESSOR[Q["shape"]]))
+        return self.mk("quantity-all", [Q["header"]], body, "%s<%s> every unit in and out" % (Q["name"], T))
+
     # -- seeded draw of one probe about unit type U ---------------------------------------------
     def random_probe(self, U, kinds=None):
         qs = self.cat.quantities_of_unit(U)
@@ -263,15 +305,19 @@ class ProbeGen:
         if k == "compare": return self.compare(Q, T)
         if k == "convert": return self.convert(U, T)
         if k == "convert-inplace": return self.convert_inplace(U, T)
-        if k == "static": return self.static(Q, T)
-        if k == "plain": return self.plain(Q, T)
+        if k == "static": return self.static(Q, "double")
+        if k == "plain": return self.plain(Q, "double")
         return self.dims(Q, T)
 
     # -- the covering set for one unit type: every table kind, every numeric type ---------------
     def covering(self, U):
         es = self.cat.units[U]["enumerators"]
         lits = self.cat.units[U]["literals"]
-        out = []
+        out = [self.abbr_all(U), self.related_all(U), self.parse_all(U), self.consistent_all(U)]
+        for T in NUMERIC:
+            out.append(self.convert_all(U, T))
+        for Q in self.cat.quantities_of_unit(U):
+            out.append(self.quantity_all(Q, self.rng.choice(NUMERIC)))
         picks = [es[0], es[-1], self.rng.choice(es)]
         for e in dict.fromkeys(picks):
             out.append(self.abbr(U, e))
@@ -298,7 +344,7 @@ class ProbeGen:
         if qs:
             out.append(self.stream_q(self.rng.choice(qs), self.rng.choice(NUMERIC)))
             out.append(self.compare(self.rng.choice(qs), self.rng.choice(NUMERIC)))
-            out.append(self.static(self.rng.choice(qs), self.rng.choice(NUMERIC)))
+            out.append(self.static(self.rng.choice(qs), "double"))
         return out
 
 
